@@ -206,6 +206,12 @@ def run(ctx: Ctx) -> None:
         "exponent float, small": ("SIGNED_FLOAT", ["1e-05", "2.5e-05", "-1.5e-07", "1.234e-10"]),
         "exponent float, large": ("SIGNED_FLOAT", ["1e+16", "1.5e+20", "-2e+30", "1e+100"]),
     }
+    if ctx.tier == "thorough":
+        # what repr() writes over a grid of magnitudes (Python's own float formatting, no repository code involved)
+        grid = sorted({repr(sign * m * 10.0**ex) for sign in (1, -1) for m in (1.0, 1.5, 2.25, 9.99, 1.234567, 7.0) for ex in range(-24, 25)})
+        shapes["repr() grid, decimal"] = ("SIGNED_FLOAT", [g for g in grid if "e" not in g])
+        shapes["repr() grid, exponent"] = ("SIGNED_FLOAT", [g for g in grid if "e" in g])
+        shapes["int grid"] = ("SIGNED_INT", sorted({str(sign * d * 10**ex) for sign in (1, -1) for d in (1, 7, 12, 255) for ex in range(0, 19)}))
     for name, (kind, texts) in shapes.items():
         for txt in texts:
             got = G.lex_kind(txt, acc)
